@@ -250,7 +250,6 @@ func vC13Shed(zoneQuota bool, name string) vC13ShedObs {
 	return o
 }
 
-
 // ---- C. Gated fan-out: the SCHEDULE of Resolver.lookup is observed, not guessed.
 // (Optionally the client's context is cancelled at a barrier after some replies.)
 //
